@@ -103,7 +103,8 @@ func ReadIndex(r io.Reader) (*Index, error) {
 		return nil, err
 	}
 	if n == 0 {
-		return nil, nil
+		// An index without references is empty, not absent.
+		return &idx, nil
 	}
 	idx.idx, err = internal.ReadIndex(r, n, "bam")
 	if err != nil {
